@@ -57,13 +57,21 @@ TStartRace == /\ IsEvent("startrace")
                     /\ e.bare = 0                                         \* every answer went through the configured chain
                     /\ e.cfg = "fail" => e.replies = 0                    \* a rejected configuration never answered
               /\ UNCHANGED <<n, started>>
+\* a section without listeners is still configured: its unknown / failing plugins abort start-up (Lifecycle!Load)
+TStartCfg == /\ IsEvent("startcfg")
+             /\ (On \/ "C13" \in Lens) => Trace[l].res = "err"
+             /\ UNCHANGED <<n, started>>
+\* however long the chain takes, the response it returns is what is sent
+TSlowChain == /\ IsEvent("slowchain")
+              /\ (On \/ "C13" \in Lens) => Trace[l].res = "reply"
+              /\ UNCHANGED <<n, started>>
 TWait == /\ IsEvent("wait")
          /\ On => Trace[l].res = "returned"                               \* WaitReturns
          /\ UNCHANGED <<n, started>>
 TNote == IsEvent("note") /\ UNCHANGED <<n, started>>
 
 TraceInit == l = 1 /\ n = 0 /\ started = FALSE
-TraceNext == TStart \/ TPorts \/ TRoundTrip \/ TDatagram \/ TBurst \/ TStartRace \/ TWait \/ TNote
+TraceNext == TStart \/ TPorts \/ TRoundTrip \/ TDatagram \/ TBurst \/ TStartRace \/ TStartCfg \/ TSlowChain \/ TWait \/ TNote
 TraceSpec == TraceInit /\ [][TraceNext]_tvars
 TraceAccepted ==
   LET d == TLCGet("stats").diameter
